@@ -42,8 +42,35 @@ def run(ctx):
                 if 'score mate' in a and s['stop'] == -1 and not s['hist']:
                     extra_j.append((s['g'], a))
     jl += [f'judgemate {g} @ {a}' for g, a in extra_j]
-    jud = ctx.model_batch(jl)
-    allcases = [(g, d, e) for (g, d), e in zip(scen, eng)] + [(g, None, a) for g, a in extra_j]
+    # long mates: bare-king endings (K+Q v K, K+R v K, random placements, both colours) searched deep enough (depth 10-12, engine only) for forced mates of
+    # three to six moves to be announced with the table warm inside the search; announcements of up to three moves are decided by the solver
+    # (affordable with four men on the board), longer ones by PV consistency only
+    oracle = posgen.Oracle(ctx.model)
+    sparse = []
+    try:
+        want = 14 if ctx.tier == 'quick' else 120
+        tries = 0
+        while len(sparse) < want and tries < 5000:
+            tries += 1
+            sq = rng.sample(range(64), 3)
+            strong = rng.choice('QR'); white_strong = rng.random() < 0.5
+            cells = ['1'] * 64
+            cells[sq[0]] = 'K'; cells[sq[1]] = 'k'; cells[sq[2]] = strong if white_strong else strong.lower()
+            rows = []
+            for r in range(8):
+                row = ''.join(cells[r * 8:(r + 1) * 8]); row = re.sub(r'1+', lambda m: str(len(m.group(0))), row); rows.append(row)
+            fen = '/'.join(rows) + (' w' if white_strong else ' b') + ' - - 0 1'
+            gg = oracle.ask('rekey ' + posgen.fen_to_fields(fen))
+            if oracle.ask('wf ' + gg) == '1' and oracle.ask('succ ' + gg).strip(): sparse.append(gg)
+    finally:
+        oracle.close()
+    lscen = [(g, d) for g in sparse for d in ((11,) if ctx.tier == 'quick' else (10, 12))]
+    leng = ctx.engine_batch([searchcore.seq_line([searchcore.mk_search(d, -1, 0, 0, 0, [], g)]) for g, d in lscen], shards=8)
+    ljl = [f'judgemate L3 {g} @ {e}' for (g, d), e in zip(lscen, leng)]
+    jud = ctx.model_batch(jl + ljl)
+    ctx.cov['long_mate_searches_on_bare_king_endings'] = len(lscen)
+    ctx.cov['long_mate_searches_announcing_a_mate_of_at_most_3'] = sum(1 for e in leng if re.search(r'score mate -?[123] ', e))
+    allcases = [(g, d, e) for (g, d), e in zip(scen, eng)] + [(g, None, a) for g, a in extra_j] + [(g, d, e) for (g, d), e in zip(lscen, leng)]
     nmate = sum(1 for g, d, e in allcases if 'score mate' in e)
     ctx.cov['evaluations'] = len(allcases)
     ctx.cov['distinct_nontrivial'] = len(set((g, d) for g, d, e in allcases if 'score mate' in e))
@@ -74,6 +101,6 @@ def replay(ctx, path):
     j = json.load(open(path)); vlib.standard_prepare(ctx, 'Props/C11.v')
     g = j['replay']['game_fields']; d = j['replay'].get('depth') or 4
     e = ctx.engine_batch([searchcore.seq_line([searchcore.mk_search(d, -1, 0, 0, 0, [], g)])], shards=1)[0]
-    v = ctx.model_batch([f'judgemate {g} @ {e}'], shards=1)[0]
+    v = ctx.model_batch([f'judgemate {"L3 " if d >= 10 else ""}{g} @ {e}'], shards=1)[0]
     print('engine:', e.split(' || ')[0]); print('solver:', v)
     return 0 if v.startswith('OK') else 1
